@@ -45,56 +45,7 @@ Definition trip_eqb (a b : N * N * N) : bool :=
   let '(x, y, z) := a in let '(u, v, w) := b in (x =? u) && (y =? v) && (z =? w).
 
 (* error codes: 1x impl<>model, 2x impl<>spec, 3x model<>spec *)
-Definition check_case (o : obs) : list N :=
-  let m1 := connection (b_p o) (b_grace o) false true (b_client o) (b_server o) in
-  let m2 := connection (b_p o) (b_grace o) false false (b_client o) (b_server o) in
-  let x := expect (b_grace o) (i_start o) (b_client o) (b_server o) in
-  let xm := expect (b_grace o) (o_start m1) (b_client o) (b_server o) in
-  let allowed := allowed_delay c05_dns_first_timeout_ms (p_sniff_ms (b_p o)) (p_port53 (b_p o)) (p_try_sniff (b_p o)) (p_try_sniff (b_p o)) in
-  let e c (b : bool) := if b then [] else [c] in
-  if b_tcp o then
-    (* real sockets: only timing-independent scripts are generated; bytes and shutdowns against the spec *)
-    e 21 (list_eqb (i_up o) (x_up x)) ++ e 22 (list_eqb (i_down o) (x_down x))
-    ++ e 23 (Bool.eqb (i_up_shut o) (x_up_shut x)) ++ e 24 (Bool.eqb (i_down_shut o) (x_down_shut x))
-    ++ e 25 (negb (i_err o))
-  else if i_handled_dns o || o_handled_dns m1 then
-    e 10 (Bool.eqb (i_handled_dns o) (o_handled_dns m1))
-  else
-    (* impl = model: when both directions are ready at the same instant the goroutine order is free; the
-       implementation must agree with one of the two orders (bytes down: lie between them) *)
-    (let agree (m : outcome) : list N :=
-       e 11 (i_start o =? o_start m) ++ e 12 (optN_eqb (i_dl_at_start o) (o_dl_at_start m))
-       ++ e 13 (match o_stack m with Some st => shape_eqb (i_shape o) (shape st) | None => false end)
-       ++ e 14 (list_eqb (i_up o) (o_up m))
-       ++ e 16 (let '(n, t, l) := i_cw_up o in let '(n', t', l') := o_cw_up m in (n =? n') && (t =? t') && (l =? l'))
-       ++ e 40 (Bool.eqb (i_up_shut o) (o_up_shut m) && Bool.eqb (i_down_shut o) (o_down_shut m))
-       ++ e 17 (let '(n, t, _) := i_cw_down o in let '(n', t', _) := o_cw_down m in (n =? n') && (t =? t'))
-       ++ e 18 (Bool.eqb (i_err o) (o_err m) && Bool.eqb (i_alive o) (o_alive m) && (i_alive o || (i_end o =? o_end m)))
-       ++ e 19 (Bool.eqb (i_spin o) (o_spin m)) in
-     match agree m1, agree m2 with
-     | [], _ => []
-     | _, [] => []
-     | l, _ => l
-     end)
-    ++ e 15 ((is_prefix (o_down m1) (i_down o) && is_prefix (i_down o) (o_down m2))
-             || (is_prefix (o_down m2) (i_down o) && is_prefix (i_down o) (o_down m1)))
-    (* impl = spec *)
-    ++ e 21 (list_eqb (i_up o) (x_up x)) ++ e 22 (list_eqb (i_down o) (x_down x))
-    ++ e 23 (Bool.eqb (i_up_shut o) (x_up_shut x)) ++ e 24 (Bool.eqb (i_down_shut o) (x_down_shut x))
-    ++ e 25 (Bool.eqb (i_alive o) (x_alive x))
-    ++ e 26 (match i_dl_at_start o with None => true | Some _ => false end)
-    ++ e 27 (i_start o <=? allowed)
-    (* model = spec *)
-    ++ e 31 (list_eqb (o_up m1) (x_up xm)) ++ e 32 (list_eqb (o_down m1) (x_down xm) && list_eqb (o_down m2) (x_down xm))
-    ++ e 33 (Bool.eqb (o_up_shut m1) (x_up_shut xm)) ++ e 34 (Bool.eqb (o_down_shut m1) (x_down_shut xm))
-    ++ e 35 (Bool.eqb (o_alive m1) (x_alive xm))
-    ++ e 36 (match o_dl_at_start m1 with None => true | Some _ => false end)
-    ++ e 37 (o_start m1 <=? allowed).
-
-(* coverage signature: stack kind at relay start, detection stages run, how the relay ended,
-   which side's end of stream came first, stale deadline / sticky error present *)
-Definition case_signature (o : obs) : N * N * N * N * N :=
-  let m := connection (b_p o) (b_grace o) false true (b_client o) (b_server o) in
+Definition signature_of (o : obs) (m : outcome) : N * N * N * N * N :=
   let top := match o_stack m with Some st => match shape st with (k, n) :: _ => k * 2 + (if n =? 0 then 0 else 1) | [] => 9 end | None => 8 end in
   let '(a, b, c) := o_ran m in
   let ran := (if a then 1 else 0) + (if b then 2 else 0) + (if c then 4 else 0) in
@@ -106,3 +57,57 @@ Definition case_signature (o : obs) : N * N * N * N * N :=
                 + (match o_stack m with Some (CSniffer _ (Some _) _) => 2 | _ => 0 end)
                 + (if o_spin m then 4 else 0) in
   (top, ran, ending, first, defect).
+
+Definition agree (o : obs) (m : outcome) : list N :=
+  let e c (b : bool) := if b then [] else [c] in
+  e 11 (i_start o =? o_start m) ++ e 12 (optN_eqb (i_dl_at_start o) (o_dl_at_start m))
+  ++ e 13 (match o_stack m with Some st => shape_eqb (i_shape o) (shape st) | None => false end)
+  ++ e 14 (list_eqb (i_up o) (o_up m))
+  ++ e 16 (let '(n, t, l) := i_cw_up o in let '(n', t', l') := o_cw_up m in (n =? n') && (t =? t') && (l =? l'))
+  ++ e 40 (Bool.eqb (i_up_shut o) (o_up_shut m) && Bool.eqb (i_down_shut o) (o_down_shut m))
+  ++ e 17 (let '(n, t, _) := i_cw_down o in let '(n', t', _) := o_cw_down m in (n =? n') && (t =? t'))
+  ++ e 18 (Bool.eqb (i_err o) (o_err m) && Bool.eqb (i_alive o) (o_alive m) && (i_alive o || (i_end o =? o_end m)))
+  ++ e 19 (Bool.eqb (i_spin o) (o_spin m)).
+
+(* impl = model: when both directions are ready at the same instant the goroutine order is free; the
+   implementation must agree with one of the two orders (bytes down: lie between them).  The second order is
+   only evaluated when the first does not match. *)
+Definition impl_vs_model (o : obs) (m1 : outcome) : list N :=
+  let e c (b : bool) := if b then [] else [c] in
+  match agree o m1, list_eqb (i_down o) (o_down m1) with
+  | [], true => []
+  | l, same =>
+      let m2 := connection (b_p o) (b_grace o) false false (b_client o) (b_server o) in
+      (match l, agree o m2 with [], _ => [] | _, [] => [] | l1, _ => l1 end)
+      ++ e 15 (same || (is_prefix (o_down m1) (i_down o) && is_prefix (i_down o) (o_down m2))
+               || (is_prefix (o_down m2) (i_down o) && is_prefix (i_down o) (o_down m1)))
+  end.
+
+Definition check_case (o : obs) : list N * (N * N * N * N * N) :=
+  let m1 := connection (b_p o) (b_grace o) false true (b_client o) (b_server o) in
+  let x := expect (b_grace o) (i_start o) (b_client o) (b_server o) in
+  let xm := expect (b_grace o) (o_start m1) (b_client o) (b_server o) in
+  let allowed := let '(rd, rp, rs) := o_ran m1 in allowed_delay c05_dns_first_timeout_ms (p_sniff_ms (b_p o)) rd rp rs in
+  let e c (b : bool) := if b then [] else [c] in
+  (if b_tcp o then
+    (* real sockets: only timing-independent scripts are generated; bytes and shutdowns against the spec *)
+    e 21 (list_eqb (i_up o) (x_up x)) ++ e 22 (list_eqb (i_down o) (x_down x))
+    ++ e 23 (Bool.eqb (i_up_shut o) (x_up_shut x)) ++ e 24 (Bool.eqb (i_down_shut o) (x_down_shut x))
+    ++ e 25 (negb (i_err o))
+  else if i_handled_dns o || o_handled_dns m1 then
+    e 10 (Bool.eqb (i_handled_dns o) (o_handled_dns m1))
+  else
+    impl_vs_model o m1
+    (* impl = spec *)
+    ++ e 21 (list_eqb (i_up o) (x_up x)) ++ e 22 (list_eqb (i_down o) (x_down x))
+    ++ e 23 (Bool.eqb (i_up_shut o) (x_up_shut x)) ++ e 24 (Bool.eqb (i_down_shut o) (x_down_shut x))
+    ++ e 25 (Bool.eqb (i_alive o) (x_alive x))
+    ++ e 26 (match i_dl_at_start o with None => true | Some _ => false end)
+    ++ e 27 (i_start o <=? allowed)
+    (* model = spec (what C05_half_close / C05_no_stale_deadline / C05_detection_delay_bounded say, re-observed) *)
+    ++ e 31 (list_eqb (o_up m1) (x_up xm)) ++ e 32 (list_eqb (o_down m1) (x_down xm))
+    ++ e 33 (Bool.eqb (o_up_shut m1) (x_up_shut xm)) ++ e 34 (Bool.eqb (o_down_shut m1) (x_down_shut xm))
+    ++ e 35 (Bool.eqb (o_alive m1) (x_alive xm))
+    ++ e 36 (match o_dl_at_start m1 with None => true | Some _ => false end)
+    ++ e 37 (o_start m1 <=? allowed),
+   signature_of o m1).
